@@ -246,7 +246,64 @@ REPLACE.update(
 )
 
 
+class RNode(State):
+    name: str
+    weight: int
+    children: Sequence["RNode"] = ()
+    note: str = "n"
+
+
+class LazyNodes(Sequence):
+    """a lazy sequence that builds RNode instances (of the very class being constructed / updated)
+    while it is converted: re-entrant use of the library from inside a validation"""
+
+    def __init__(self, n: int, base: int = 100) -> None:
+        self.n, self.base = n, base
+
+    def __len__(self) -> int:
+        return self.n
+
+    def __getitem__(self, i):
+        if not 0 <= i < self.n:
+            raise IndexError(i)
+        return RNode(name=f"child{i}", weight=self.base + i, note=f"c{i}")
+
+
+def _reentrant(program) -> Result:
+    viols: list[dict] = []
+    steps = 0
+    n = program["n"]
+    eager = lambda k, base=100: [RNode(name=f"child{i}", weight=base + i, note=f"c{i}") for i in range(k)]  # noqa: E731
+    try:
+        root = RNode(name="root", weight=1, children=LazyNodes(n), note="r")
+        want = RNode(name="root", weight=1, children=eager(n), note="r")
+        steps += 1
+        if snap(root) != snap(want) or not (root == want):
+            viols.append(viol("construction", "re-entrant/lazy-children", snap(want), snap(root)))
+        before = snap(root)
+        for how in ("updated-children", "updated-name+children", "copy", "deepcopy"):
+            steps += 1
+            if how == "updated-children":
+                got, exp = root.updated(children=LazyNodes(n + 1, 200)), RNode(name="root", weight=1, children=eager(n + 1, 200), note="r")
+            elif how == "updated-name+children":
+                got, exp = root.updated(name="other", children=LazyNodes(1, 300)), RNode(name="other", weight=1, children=eager(1, 300), note="r")
+            elif how == "copy":
+                got, exp = copy.copy(root), want
+            else:
+                got, exp = copy.deepcopy(root), want
+            if snap(got) != snap(exp) or not (got == exp):
+                viols.append(viol("updated" if how.startswith("updated") else how, f"re-entrant/{how}", snap(exp), snap(got)))
+            if snap(root) != before:
+                viols.append(viol("immutable", f"changed-by/re-entrant-{how}", before, snap(root)))
+                break
+    except Exception as exc:  # noqa: BLE001
+        viols.append(viol("construction", "re-entrant/raises", "an instance", f"{type(exc).__name__}: {exc}"[:160]))
+    return Result(f"reentrant/{n}", True, viols[:4], program, steps=steps)
+
+
 def programs(tier: str):
+    for n in (1, 2, 3):
+        yield {"family": "reentrant", "n": n}
     L = BOUNDS[tier]["L"]
     for name, (_, builders) in CATALOGUE.items():
         for i in range(len(builders)):
@@ -327,6 +384,8 @@ def execute(program, ch: Chooser) -> Result:  # noqa: C901, PLR0912, PLR0915
     viols: list[dict] = []
     if program["family"] == "equality":
         return _equality(program)
+    if program["family"] == "reentrant":
+        return _reentrant(program)
     name, idx, L = program["cls"], program["inst"], program["L"]
     cls, builders = CATALOGUE[name]
     args = builders[idx]()
